@@ -133,3 +133,36 @@ Theorem C06_model_meets_initial_monitor :
     Monitors.mon_C06_initial mc cc (Monitors.ma_rtt s) (AgentMeets.mop_of o rep) (AgentMeets.obs_of c c' o rep evs) = true.
 Proof. exact AgentMeets5.model_meets_C06_initial. Qed.
 Print Assumptions C06_model_meets_initial_monitor.
+(* the hypothesis of C06_model_meets_initial_monitor discharged for the histories ocaml/driver.ml actually runs: the interval
+   of every request on unreliable transport is the one the exact estimator model (Agent/RttExact.v: est0, est_step,
+   est_rto_for_send) computes, threaded along the run exactly as the driver threads it (AgentMeets6.est_driven). Along every
+   such well-formed history the clause mon_C06_initial accepts every step of the model, with no further hypothesis: while
+   the C15 monitor holds no estimate the estimator model hands the configured RTO (Proofs/AgentMeets6.v: whenever the
+   estimator takes a sample the monitor takes one too or stops judging, and both go stale under the same rule) *)
+From Rustun Require Import Agent.RttExact Proofs.AgentMeets6.
+Theorem C06_est_driven_hands_configured :
+  forall (cf:Model.config) (m:Model.mech) (mc:Monitors.mcfg) (cc:Monitors.ccfg) (ops:list Model.op),
+  AgentMeets.consistent mc cf -> AgentMeets2.consistent_cc cc cf m -> AgentMeets.well_formed_history ops ->
+  Monitors.cc_reliable cc = false ->
+  AgentMeets6.est_driven (Model.init cf m) (RttExact.est0 (Monitors.cc_rto cc) (Monitors.cc_gran cc)) ops ->
+  AgentMeets5.history_hands_configured mc cc (Model.init cf m) (Monitors.mall0 cc) ops.
+Proof. exact AgentMeets6.est_driven_hands_configured. Qed.
+Print Assumptions C06_est_driven_hands_configured.
+Theorem C06_est_driven_model_meets_initial_monitor :
+  forall (cf:Model.config) (m:Model.mech) (mc:Monitors.mcfg) (cc:Monitors.ccfg) (ops:list Model.op),
+  AgentMeets.consistent mc cf -> AgentMeets2.consistent_cc cc cf m -> AgentMeets.well_formed_history ops ->
+  AgentMeets6.est_driven (Model.init cf m) (RttExact.est0 (Monitors.cc_rto cc) (Monitors.cc_gran cc)) ops ->
+  forall (a:list Model.op) (o:Model.op) (b:list Model.op), ops = a ++ o :: b ->
+    let c := fst (AgentMeets3.run_state mc cc (Model.init cf m) (Monitors.mall0 cc) a) in
+    let s := snd (AgentMeets3.run_state mc cc (Model.init cf m) (Monitors.mall0 cc) a) in
+    let '(c', rep, evs) := Model.step c o in
+    Monitors.mon_C06_initial mc cc (Monitors.ma_rtt s) (AgentMeets.mop_of o rep) (AgentMeets.obs_of c c' o rep evs) = true.
+Proof. exact AgentMeets6.model_meets_C06_initial_est_driven_step. Qed.
+Print Assumptions C06_est_driven_model_meets_initial_monitor.
+Theorem C06_est_driven_model_meets_initial_monitor_run :
+  forall (cf:Model.config) (m:Model.mech) (mc:Monitors.mcfg) (cc:Monitors.ccfg) (ops:list Model.op),
+  AgentMeets.consistent mc cf -> AgentMeets2.consistent_cc cc cf m -> AgentMeets.well_formed_history ops ->
+  AgentMeets6.est_driven (Model.init cf m) (RttExact.est0 (Monitors.cc_rto cc) (Monitors.cc_gran cc)) ops ->
+  AgentMeets5.initial_true (AgentMeets5.run_mon_initial mc cc (Model.init cf m) (Monitors.mall0 cc) ops).
+Proof. exact AgentMeets6.model_meets_C06_initial_est_driven. Qed.
+Print Assumptions C06_est_driven_model_meets_initial_monitor_run.
